@@ -12,7 +12,7 @@ WORK = run.WORK
 LIFE = {
     "C01": dict(models=["base_foreign", "restart"], tmodels=["t_restart3", "overlap"], fams=["other", "base", "amtless", "twohash"],
                 crashes=(0, 1), wf=0, rf=0),
-    "C02": dict(focus=["Overlap", "Live"], models=["restart", "faults"], tmodels=["t_restart3", "t_faults2", "overlap"], fams=["base", "overlap", "amtless", "replay"],
+    "C02": dict(extra=["wait_timeout"], focus=["Overlap", "Live"], models=["restart", "faults"], tmodels=["t_restart3", "t_faults2", "overlap"], fams=["base", "overlap", "amtless", "replay"],
                 crashes=(0, 1, 1), wf=1, rf=0, trf=1),
     "C03": dict(models=["base_conf", "base_amtless", "restart"], tmodels=["t_restart3", "base_tot"], fams=["base", "amtless", "overlap", "other"],
                 crashes=(0, 1), wf=0, rf=0, extra=["class"]),
@@ -23,7 +23,7 @@ LIFE = {
                 crashes=(0,), wf=1, rf=1, extra=["garbage", "class-raw"]),
     "C07": dict(models=["base_conf", "base_exp", "base_tot", "base_amtless"], tmodels=["overlap"], fams=["base", "amtless"],
                 crashes=(0,), wf=0, rf=0),
-    "C08": dict(focus=["Overlap", "Live"], models=["overlap", "faults", "restart"], tmodels=["t_overlap2", "t_faults2"], fams=["overlap", "base"],
+    "C08": dict(extra=["wait_timeout"], focus=["Overlap", "Live"], models=["overlap", "faults", "restart"], tmodels=["t_overlap2", "t_faults2"], fams=["overlap", "base"],
                 crashes=(0, 1), wf=1, rf=0),
     "C09": dict(models=["wedge", "faults"], tmodels=["t_faults2", "restart"], fams=["base", "overlap"], crashes=(0, 1, 1), wf=1, rf=0, probes=3),
     "C11": dict(clockback=True, extra=["restart_wait", "e2e_mpp"], models=["base_conf", "restart"], tmodels=["t_restart3", "base_exp"], fams=["base", "amtless"], crashes=(0, 1), wf=0, rf=0),
@@ -32,7 +32,7 @@ LIFE = {
     "C10": dict(models=["base_foreign", "base_amtless"], tmodels=["base_conf"], fams=["other", "amtless"], crashes=(0,), wf=0, rf=0, extra=["class"]),
     "C15": dict(models=["provider"], tmodels=[], fams=["base"], crashes=(0,), wf=0, rf=0, direct=3, allrate=1),
     "C16": dict(models=["provider"], tmodels=[], fams=["base"], crashes=(0,), wf=0, rf=0, direct=3, allrate=1),
-    "C14": dict(live=["iso"], models=["twohash"], tmodels=["t_twohash2"], fams=["twohash"], crashes=(0,), wf=0, rf=0, freeze=True),
+    "C14": dict(extra=["e2e_iso"], live=["iso"], models=["twohash"], tmodels=["t_twohash2"], fams=["twohash"], crashes=(0,), wf=0, rf=0, freeze=True),
 }
 
 STATS = re.compile(r"(\d+) states generated, (\d+) distinct states found")
@@ -226,6 +226,10 @@ def build_jobs(pid, tier, seed, workdir):
         dj = scen.restart_wait_jobs(start_run=runno)
         jobs += dj; runno += len(dj)
         sched_stats["directed restart/timeout schedules"] = len(dj)
+    if "wait_timeout" in ex:
+        dj = scen.wait_timeout_jobs(start_run=runno)
+        jobs += dj; runno += len(dj)
+        sched_stats["directed pay-ends-early / late-wait schedules"] = len(dj)
     if "garbage" in ex:
         gj = scen.garbage_jobs(seed, 8000 if thorough else 1200, start_run=runno)
         jobs += gj; runno += len(gj)
